@@ -141,6 +141,15 @@ theorem C08_no_factor_unlike (t t1 t2 t3 t4 t5 t6 : Nat) (a b : Nat) (x y : Char
   subst hf'
   simp [canApply, dfCan, dfStep, getTermEx, dfFactorOk, hf]
 
+/-- The statement above is for positive INTEGER coefficients, and cannot be extended to all coefficients: for one
+and the same coefficient strictly between 0 and 1 the rule (code and model alike) accepts unlike terms, because
+the smallest common "factor" of `c` and `c` is then `c`, not `1`.  Witness `0.5y + 0.5z`; recorded as the open
+finding C08-factor-out-equal-fractional-coefficients, replayed against the real rule on every run. -/
+theorem C08_no_factor_unlike_fails_for_fractions :
+    canApply (.factorOut false) []
+      (.bin 0 .add (.bin 0 .mul (.const 0 (1/2)) (.var 0 'y')) (.bin 0 .mul (.const 0 (1/2)) (.var 0 'z'))) = true := by
+  decide +kernel
+
 /-- pure constants are not factored unless enabled -/
 theorem C08_no_factor_constants (k : Ctx) (t t1 t2 : Nat) (a b : Rat) :
     canApply (.factorOut false) k (.bin t .add (.const t1 a) (.const t2 b)) = false := by
